@@ -50,6 +50,10 @@ JText(e) ==
             expOuts == LET F[i \in 0..256] == IF i = 0 THEN << >> ELSE (IF refs[i - 1].ok THEN F[i - 1] \o refs[i - 1].bytes ELSE F[i - 1]) IN F[256] IN
         << R("C13", "decoder_accepts_exactly_the_alphabet_at_every_position", TRUE, e.r.oks = expOks, cls),
            R("C13", "decoder_outputs_match_reference", e.r.oks = expOks /\ \A b \in 0..255 : ~(lenient[b] /\ e.r.oks[b + 1] = 1), e.r.outs = expOuts, cls) >>
+    [] e.op = "TextBig" ->
+        LET want == IF e.pkg = "b32" THEN (IF e.fn = "EncodeToStringNoPadding" THEN CeilDiv(8 * e.n, 5) ELSE 8 * CeilDiv(e.n, 5)) ELSE 4 * CeilDiv(e.n, 3) IN
+        << R("C13", "large_input_round_trips", e.n <= MaxEncode, e.r.enc_ok /\ e.r.dec_ok /\ e.r.equal, cls \o "/big"),
+           R("C13", "large_output_length_and_alphabet", e.r.enc_ok, e.r.outlen = want /\ e.r.alphabet_ok, cls \o "/big") >>
     [] e.op = "TextGuard" ->
         LET enc == e.fn \in {"EncodeToString", "EncodeToStringNoPadding", "EncodeToStringSafe"}
             max == IF enc THEN MaxEncode ELSE IF e.pkg = "b32" THEN MaxDecodeB32 ELSE MaxDecodeB64
